@@ -275,6 +275,34 @@ def corrfit_cases(rng, n, ctx):
     return cases
 
 
+WHAT_LM = 'the default Levenberg-Marquardt fit returns its starting point for data of magnitude 1e9 and beyond (finite-difference Jacobian underflows)'
+
+
+def large_scale_probe(ctx, rng):
+    """a recorded finding, probed by the driver itself: a straight line through data of size 1e10 with the default method and starting point
+    either is the weighted least-squares solution, or is exactly the starting point (the listed deviation); anything else is a violation"""
+    for k, scale in enumerate((1e10, 1e12)):
+        x = np.arange(1, 7.0)
+        y = [pe.Obs([scale * (1 + 0.5 * xi) * (1 + 0.05 * rng.normal(size=40))], ['big']) for xi in x]
+        [o.gamma_method() for o in y]
+        r = _quiet(lambda: pe.fits.least_squares(x, y, lambda a, x: a[0] + a[1] * x, silent=True))
+        cid = 'fit-largescale-%g' % scale
+        if isinstance(r, Exception):
+            ctx.rejects.append((cid, 'fit raised ' + type(r).__name__))
+            continue
+        w = np.array([1.0 / o.dvalue ** 2 for o in y])
+        A = np.vstack([np.ones_like(x), x]).T
+        gls = np.linalg.solve(A.T @ (w[:, None] * A), A.T @ (w * np.array([o.value for o in y])))
+        p = np.array([float(q.value) for q in r.fit_parameters])
+        if np.allclose(p, gls, rtol=1e-6):
+            continue
+        if np.all(p == 0.1):
+            ctx.known.append((cid, WHAT_LM))
+        else:
+            ctx.rejects.append((cid, 'parameters are neither the weighted least-squares solution nor the starting point'))
+    ctx.cases += 2
+
+
 def run(ctx):
     rng = np.random.default_rng(ctx.seed)
     want = 70 if ctx.quick else 900
@@ -292,3 +320,5 @@ def run(ctx):
     cases += corrfit_cases(rng, 12 if ctx.quick else 150, ctx)
     ctx.sample({'id': cases[0]['id'], 'model_expressions': cases[0].get('exprs'), 'points': cases[0].get('points', [])[:3]})
     ctx.validate('FitTrace', cases, timeout=3000)
+    if ctx.only is None:
+        large_scale_probe(ctx, rng)
